@@ -92,3 +92,7 @@ CORPUS += [
       "        elif isinstance(res, _ShortState):\n            self._power_state = res.power_on\n        elif isinstance(res, PropertiesResponse):",
       also=[("msmart/device/AC/device.py", "class AirConditioner(Device):", "class _ShortState(StateResponse):\n    pass\n\n\nclass AirConditioner(Device):")]),
 ]
+# round 11: the frames of an exchange come back in arrival order (the latest report wins)
+CORPUS += [
+    M("unsolicited-frames-after-the-reply", "msmart/lan.py", "        return responses\n\n\nclass Security:", "        return responses[-1:] + responses[:-1]\n\n\nclass Security:"),
+]
